@@ -215,7 +215,7 @@ func c12R2(c *Ctx) {
 		return
 	}
 	sites := p.CallsTo(p.FuncsInPkg(eniPkg), derive.Obj)
-	c.Floor("C12.R2", "DeriveGatewayIP call sites in pkg/eni", 6, len(sites))
+	c.Floor("C12.R2", "DeriveGatewayIP call sites in pkg/eni", 4, len(sites))
 	for _, cs := range sites {
 		fn := cs.Fn
 		info := fn.Info()
@@ -244,37 +244,56 @@ func c12R2(c *Ctx) {
 			c.Undec("C12.R2", key, p.Pos(cs.Call), fn.Key(), "", "family of the CIDR expression not recognisable")
 			continue
 		}
-		// the gateway statement targets the same family
+		// the gateway statement targets the same family (through one temporary, if any)
 		tgt := exprString2(stmt)
 		if as, ok := stmt.(*ast.AssignStmt); ok {
 			tgt = exprString(as.Lhs[0])
+			if tmp := identObj(info, as.Lhs[0]); tmp != nil {
+				if v, isVar := tmp.(*types.Var); isVar && !v.IsField() {
+					ast.Inspect(fn.Decl.Body, func(k ast.Node) bool {
+						a2, ok := k.(*ast.AssignStmt)
+						if !ok || len(a2.Lhs) != len(a2.Rhs) {
+							return true
+						}
+						for i, r := range a2.Rhs {
+							if identObj(info, r) == tmp {
+								if _, plain := ast.Unparen(a2.Lhs[i]).(*ast.Ident); !plain {
+									tgt = exprString(a2.Lhs[i])
+								}
+							}
+						}
+						return true
+					})
+				}
+			}
 		}
 		famOK := !strings.Contains(tgt, "IPv4") && !strings.Contains(tgt, "IPv6") || strings.Contains(tgt, fam)
-		// sibling statement in the same block reports the same CIDR expression as the subnet
+		// a statement of an enclosing block reports the same CIDR expression as the subnet
 		sib := false
-		for _, s := range blk.List {
-			if s == stmt {
+		for i, nd := range path {
+			b, ok := nd.(*ast.BlockStmt)
+			if !ok || i+1 >= len(path) {
 				continue
 			}
-			uses := false
-			ast.Inspect(s, func(k ast.Node) bool {
-				if e, ok := k.(ast.Expr); ok && exprString(e) == xs {
-					uses = true
+			for _, s := range b.List {
+				if ast.Node(s) == path[i+1] {
+					continue
 				}
-				return true
-			})
-			if !uses {
-				continue
-			}
-			src := exprString2(s)
-			if as, ok := s.(*ast.AssignStmt); ok {
-				lhs := exprString(as.Lhs[0])
-				if strings.Contains(lhs, fam) || strings.Contains(src, "ParseCIDR("+xs+")") {
+				if as, ok := s.(*ast.AssignStmt); ok {
+					if len(as.Lhs) == len(as.Rhs) {
+						for k, r := range as.Rhs {
+							if exprString(r) == xs && strings.Contains(exprString(as.Lhs[k]), fam) {
+								sib = true
+							}
+						}
+					}
+					if strings.Contains(exprString2(s), "ParseCIDR("+xs+")") {
+						sib = true
+					}
+				}
+				if es, ok := s.(*ast.ExprStmt); ok && strings.Contains(exprString(es.X), "SetIPNet("+xs+")") {
 					sib = true
 				}
-			}
-			if es, ok := s.(*ast.ExprStmt); ok && strings.Contains(exprString(es.X), "SetIPNet("+xs+")") {
-				sib = true
 			}
 		}
 		// family guard of the block (getTrunkENI: if EnableIPvN)
